@@ -44,7 +44,12 @@ func verifClone(v any) any {
 	return v
 }
 
-const verifNPure = 8
+const verifNPure = 9
+
+type verifOuter2 struct {
+	In  verifInner `json:"in"`
+	In2 verifInner `json:"in2"`
+}
 
 // verifPureCase builds a schema (twice, identically, for the history-freedom comparison) and an argument for it.
 func verifPureCase(k int, tag string) (mk func() Type, arg any) {
@@ -109,6 +114,25 @@ func verifPureCase(k int, tag string) (mk func() Type, arg any) {
 			m["in"] = map[string]any{"a": nondetInt64(tag + "ia")}
 		}
 		arg = m
+	case 8: // two properties of one sub-object type: one overrides a member default, its sibling does not
+		mk = func() Type {
+			inner := NewStructMappedObjectSchema[verifInner]("Inner", map[string]*PropertySchema{
+				"a": NewPropertySchema(NewIntSchema(amin, nil, nil), nil, false, nil, nil, nil, verifStrPtr("1"), nil),
+				"b": NewPropertySchema(NewIntSchema(nil, nil, nil), nil, false, nil, nil, nil, verifStrPtr("2"), nil),
+			})
+			return NewStructMappedObjectSchema[verifOuter2]("Outer2", map[string]*PropertySchema{
+				"in":  NewPropertySchema(inner, nil, false, nil, nil, nil, verifStrPtr(`{"a":7}`), nil),
+				"in2": NewPropertySchema(inner, nil, false, nil, nil, nil, nil, nil),
+			})
+		}
+		m := map[string]any{}
+		if nondetBool(tag + "hasIn") {
+			m["in"] = map[string]any{"a": nondetInt64(tag + "ia")}
+		}
+		if nondetBool(tag + "hasIn2") {
+			m["in2"] = map[string]any{"b": nondetInt64(tag + "ib")}
+		}
+		arg = m
 	case 6: // scope with references
 		mk = func() Type {
 			return NewScopeSchema(NewObjectSchema("A", map[string]*PropertySchema{
@@ -128,7 +152,7 @@ func verifPureCase(k int, tag string) (mk func() Type, arg any) {
 
 // one evaluation in insertion order, one under every iteration order of every map touched: same verdict and result
 func VerifC12_OrderIndependence() {
-	k := nondetChoice("case", verifNPure)
+	k := nondetChoice("case", verifNPure-1) // the two-sibling family (8) multiplies the orders of five maps: history and argument checks only
 	mk, arg := verifPureCase(k, "")
 	s := mk()
 	op := nondetChoice("op", 2)
